@@ -434,6 +434,9 @@ class TT():
 
         if np.isscalar(other) or (tn.is_tensor(other) and tn.numel(other) == 1):
             # the second term is a scalar
+            if tn.is_tensor(other):
+                # a one-element tensor acts as a 0-d scalar: a dimensioned operand would promote the dtype of the first core only
+                other = tn.reshape(other, [])
             cores = []
 
             for i in range(len(self.__N)):
@@ -565,6 +568,9 @@ class TT():
         """
         if np.isscalar(other) or (tn.is_tensor(other) and tn.numel(other) == 1):
             # the second term is a scalar
+            if tn.is_tensor(other):
+                # a one-element tensor acts as a 0-d scalar: a dimensioned operand would promote the dtype of the first core only
+                other = tn.reshape(other, [])
             cores = []
 
             for i in range(len(self.__N)):
@@ -931,6 +937,9 @@ class TT():
                 raise InvalidArguments(
                     'Operand not permitted. A TT-object can be divided only with scalars.')
             # divide by a scalar
+            if tn.is_tensor(other):
+                # a one-element tensor acts as a 0-d scalar: a dimensioned operand would promote the dtype of the first core only
+                other = tn.reshape(other, [])
             cores_new = self.cores.copy()
             cores_new[0] = cores_new[0] / other
             result = TT(cores_new)
